@@ -62,6 +62,8 @@ var transSpecs = []transSpec{
 	{"immunitycache/config.go", "CacheConfig", "getChunkConfig", "chunkMaxNumBytes", "retfield:maxNumBytes"},
 	{"immunitycache/config.go", "CacheConfig", "getChunkConfig", "chunkNumItemsToEvict", "retfield:numItemsToPreemptivelyEvict"},
 	{"timecache/timeCacheCore.go", "timeCacheCore", "sweep", "sweepExpired", "ifcond:delete("},
+	{"sharded/shardIDProvider.go", "shardIDProvider", "ComputeId", "shardFallsBackToLowMask", "ifcond:shardIndex = addr & sp.maskLow"},
+	{"sharded/shardIDProvider.go", "shardIDProvider", "ComputeId", "shardKeepsWholeKey", "ifcond:startingIndex = len(key) - sp.bytesNeeded"},
 	{"leveldb/leveldb.go", "DB", "updateBatchWithIncrement", "dbNoFlushNeeded", "firstif"},
 	{"leveldb/leveldbSerial.go", "SerialDB", "updateBatchWithIncrement", "serialNoFlushNeeded", "firstif"},
 }
@@ -628,10 +630,63 @@ func translateOne(repo string, sp transSpec) (def string, err string) {
 			return "", "no if-statement containing " + needle
 		}
 		// the locals the condition reads are defined by the `:=` statements preceding it in the same block
-		var lets []ast.Stmt
+		// — only those the condition (transitively) reads, and only those that ARE definitions in the mathematical sense: a
+		// local that is re-assigned before the test (a loop accumulator) or computed by bit operations / slicing stays a
+		// free parameter of the translated condition
+		reassigned := map[string]bool{}
 		for _, s := range before {
-			if as, ok := s.(*ast.AssignStmt); ok && as.Tok == token.DEFINE && len(as.Lhs) == 1 && len(as.Rhs) == 1 {
-				lets = append(lets, s)
+			ast.Inspect(s, func(n ast.Node) bool {
+				switch x := n.(type) {
+				case *ast.AssignStmt:
+					if x.Tok != token.DEFINE {
+						for _, l := range x.Lhs {
+							reassigned[t.src(l)] = true
+						}
+					}
+				case *ast.IncDecStmt:
+					reassigned[t.src(x.X)] = true
+				}
+				return true
+			})
+		}
+		opaque := func(e ast.Expr) bool {
+			bad := false
+			ast.Inspect(e, func(n ast.Node) bool {
+				switch x := n.(type) {
+				case *ast.SliceExpr, *ast.IndexExpr:
+					bad = true
+				case *ast.BinaryExpr:
+					if x.Op == token.AND || x.Op == token.OR || x.Op == token.XOR || x.Op == token.SHL || x.Op == token.SHR || x.Op == token.AND_NOT {
+						bad = true
+					}
+				case *ast.Ident:
+					if reassigned[x.Name] {
+						bad = true
+					}
+				}
+				return !bad
+			})
+			return bad
+		}
+		needed := map[string]bool{}
+		mark := func(e ast.Node) {
+			ast.Inspect(e, func(n ast.Node) bool {
+				if id, ok := n.(*ast.Ident); ok {
+					needed[id.Name] = true
+				}
+				return true
+			})
+		}
+		mark(found.Cond)
+		var lets []ast.Stmt
+		for i := len(before) - 1; i >= 0; i-- {
+			if as, ok := before[i].(*ast.AssignStmt); ok && as.Tok == token.DEFINE && len(as.Lhs) == 1 && len(as.Rhs) == 1 {
+				name := t.src(as.Lhs[0])
+				if !needed[name] || reassigned[name] || opaque(as.Rhs[0]) {
+					continue
+				}
+				mark(as.Rhs[0])
+				lets = append([]ast.Stmt{before[i]}, lets...)
 			}
 		}
 		lets = append(lets, &ast.ReturnStmt{Results: []ast.Expr{found.Cond}})
